@@ -441,7 +441,7 @@ class Poly(meta(metaclass=PolyMeta)):
       return Poly(zero=self.zero)
     if len(self._data) == 1:
       return Poly(OrderedDict((k * other,
-                               1 if v == 1 else v ** other) # Avoid casting
+                               v if v == 1 else v ** other) # Avoid casting
                               for k, v in iteritems(self._data)),
                   zero=self.zero)
     return reduce(operator.mul, [self.copy()] * (other - 1) + [self])
